@@ -234,6 +234,8 @@ def cross_check(text, which, timeout_s=60):
             p = subprocess.run(cmd, capture_output=True, text=True, timeout=timeout_s + 10)
         except subprocess.TimeoutExpired:
             return 'unknown'
+        except OSError:             # second solver binary not present: no second opinion, not an error of the check
+            return 'unknown'
         out = p.stdout.strip().split('\n')
         if '(error' in p.stdout:
             return 'unknown'
